@@ -57,7 +57,7 @@ def run_kani_property(pid, cfg, tier, seed, clock):
         if cov is None:
             cov = c
         else:
-            for key in ("obligations", "discharged", "tagged_obligations", "tagged_discharged"):
+            for key in ("obligations", "discharged", "tagged_obligations", "tagged_discharged", "bounded_obligations", "bounded_discharged"):
                 cov[key] += c[key]
             cov["solver_seconds_total"] = round(cov["solver_seconds_total"] + c["solver_seconds_total"], 1)
             for key in ("harnesses_unbounded_discharged", "harnesses_bounded_discharged", "per_harness"):
@@ -218,15 +218,23 @@ def run_kani_group(pid, kcfg, tier, seed, clock, gi=0):
     # ---------------- coverage ----------------
     proved = [r for r in per_harness if r.get("outcome") == "discharged" and not r.get("bounded")]
     bounded = [r for r in per_harness if r.get("outcome") == "discharged" and r.get("bounded")]
-    n_obl = sum(r.get("checks", 0) - r.get("unreachable", 0) for r in per_harness if not r["canary"])
-    n_dis = sum(r.get("success", 0) for r in per_harness if not r["canary"])
-    n_tag = sum(len(r.get("tagged", [])) for r in per_harness if not r["canary"])
-    n_tag_ok = sum(1 for r in per_harness if not r["canary"] for t in r.get("tagged", []) if t[1] == "SUCCESS")
+    # bounded harnesses (a stated bound on an input's size) are reported separately and are
+    # never counted as proved obligations
+    unb = [r for r in per_harness if not r["canary"] and not r.get("bounded")]
+    bnd = [r for r in per_harness if not r["canary"] and r.get("bounded")]
+    n_obl = sum(r.get("checks", 0) - r.get("unreachable", 0) for r in unb)
+    n_dis = sum(r.get("success", 0) for r in unb)
+    n_tag = sum(len(r.get("tagged", [])) for r in unb)
+    n_tag_ok = sum(1 for r in unb for t in r.get("tagged", []) if t[1] == "SUCCESS")
+    b_obl = sum(r.get("checks", 0) - r.get("unreachable", 0) for r in bnd)
+    b_dis = sum(r.get("success", 0) for r in bnd)
     cov = {
         "obligations": n_obl,
         "discharged": n_dis,
         "tagged_obligations": n_tag,
         "tagged_discharged": n_tag_ok,
+        "bounded_obligations": b_obl,
+        "bounded_discharged": b_dis,
         "harnesses_unbounded_discharged": [r["harness"] for r in proved],
         "harnesses_bounded_discharged": [{"harness": r["harness"], "bound": r["bounded"]} for r in bounded],
         "solver_seconds_total": round(sum(r.get("solver_s") or 0 for r in per_harness), 1),
@@ -284,7 +292,16 @@ def main():
             violations += v
             known += k
             undecided += u
-            cov = {**cov, **vcov} if cov else vcov
+            if cov:
+                merged = {**cov, **vcov}
+                for key in ("obligations", "discharged"):
+                    merged[key] = cov.get(key, 0) + vcov.get(key, 0)
+                merged["solver_seconds_total"] = round(cov.get("solver_seconds_total", 0) + vcov.get("solver_seconds_total", 0), 1)
+                merged["back_end"] = cov.get("back_end", "") + " + " + vcov.get("back_end", "")
+                merged["samples"] = (vcov.get("samples", []) + cov.get("samples", []))[:8]
+                cov = merged
+            else:
+                cov = vcov
             scan += vscan
     except Exception:
         undecided.append("check crashed: " + traceback.format_exc()[-1500:])
@@ -328,7 +345,8 @@ def main():
         for u in undecided:
             log("UNDECIDED property=%s %s" % (pid, u))
         sys.exit(2)
-    log("[%s] OK: %d obligations discharged (%d tagged), tier=%s, wall=%.0fs" % (pid, cov["discharged"], cov.get("tagged_discharged", 0), a.tier, clock.elapsed()))
+    log("[%s] OK: %d obligations discharged (%d tagged) + %d bounded, tier=%s, wall=%.0fs"
+        % (pid, cov["discharged"], cov.get("tagged_discharged", 0), cov.get("bounded_discharged", 0), a.tier, clock.elapsed()))
     sys.exit(0)
 
 
